@@ -22,6 +22,11 @@ NSS = [None, None, "", "http://www.w3.org/1999/xlink", "http://www.w3.org/XML/19
 LOCALS = ["a", "b", "href", "lang", "A", "aa", "a-b", "a:b", "z", "é", "\U0001F600", "0", "_", "xlink:href", "{x}y", "Z"]
 
 
+OTHERS = [{"type": "Characters", "data": "t"}, {"type": "EndTag", "name": "x", "namespace": None}, {"type": "SpaceCharacters", "data": " "},
+          {"type": "Comment", "data": "c"}, {"type": "Doctype", "name": "html", "publicId": None, "systemId": None},
+          {"type": "Entity", "name": "amp"}, {"type": "SerializeError", "data": "e"}, {"type": "EndTag", "name": "y", "namespace": "http://www.w3.org/1999/xhtml"}]
+
+
 def key(item):
     (ns, ln), v = item
     return ((ns or ""), ln)
@@ -37,21 +42,23 @@ def judge_set(ctx, items):
         ctx.count("sets_with_shared_local_name")
     ctx.count("attribute_sets")
     first = None
-    for perm in itertools.permutations(items):
-        for ty in ("StartTag", "EmptyTag"):
-            for mk in (OrderedDict, dict):
-                tok = {"type": ty, "name": "x", "namespace": None, "data": mk(perm)}
-                pre = {"type": "Characters", "data": "t"}
-                post = {"type": "EndTag", "name": "x", "namespace": None}
+    for pn, perm in enumerate(itertools.permutations(items)):
+        # the element's own namespace (None, XHTML, SVG) must play no role; the neighbours rotate over every other token type
+        for ty, mk, tns in (("StartTag", OrderedDict, None), ("EmptyTag", dict, "http://www.w3.org/1999/xhtml"),
+                            ("StartTag", dict, "http://www.w3.org/2000/svg"), ("EmptyTag", OrderedDict, None)):
+            if True:
+                tok = {"type": ty, "name": "x", "namespace": tns, "data": mk(perm)}
+                pre = OTHERS[pn % len(OTHERS)]
+                post = OTHERS[(pn + 3) % len(OTHERS)]
                 out = list(aa.Filter([dict(pre), tok, dict(post)]))
                 ctx.case(["perm", [[k[0], k[1], v] for k, v in perm], ty, mk.__name__], nontrivial=len(items) >= 2)
                 ctx.count("permutations")
                 case = {"items": [[k[0], k[1], v] for k, v in perm], "type": ty}
-                if len(out) != 3 or out[0] != pre or out[2] != post:
+                if len(out) != 3 or out[0] != pre or out[2] != post or list(out[0]) != list(pre) or list(out[2]) != list(post):
                     ctx.violation("other-token-changed", case, repr(out)[:300])
                     return
                 o = out[1]
-                if o["type"] != ty or o["name"] != "x" or o["namespace"] is not None:
+                if o["type"] != ty or o["name"] != "x" or o["namespace"] != tns:
                     ctx.violation("tag-fields-changed", case, repr(o)[:300])
                     return
                 got = list(o["data"].items())
